@@ -307,6 +307,7 @@ MUTANTS += [
     # ---- C15 ----------------------------------------------------------------------
     B("c08-bound-zero-is-falsy-lower", ["C08", "C15"], IND, "            if lower_bound is not None:", "            if lower_bound:"),
     B("c08-bound-zero-is-falsy-upper", ["C08", "C15"], IND, "            if upper_bound is not None:", "            if upper_bound:"),
+    B("c11-solution-drops-point-assignments", ["C11"], "solution.py", "        self.resources[resource_solution.name] = resource_solution", "        resource_solution.assignments = [a for a in resource_solution.assignments if a[2] > a[1]]\n        self.resources[resource_solution.name] = resource_solution"),
     B("c15-parallel-guards-drain", ["C15"], SV, "        for indic in self.problem.indicators.values():\n            self.append_z3_assertion(indic.get_z3_assertions())", "        for indic in self.problem.indicators.values():\n            if not self.parallel:\n                self.append_z3_assertion(indic.get_z3_assertions())"),
     B("c15-debug-tracks-first-only", ["C15", "C19"], SV, "            for asst in assts:\n                asst_identifier", "            for asst in assts[:1]:\n                asst_identifier"),
     B("c15-nondebug-drops-lists", ["C15"], SV, "        else:\n            self._solver.add(assts)", "        else:\n            if not isinstance(assts, list):\n                self._solver.add(assts)"),
